@@ -634,9 +634,9 @@ func failureEntries(fn *ssa.Function) map[entryKey]bool {
 
 // boolState: the known values of the tracked boolean φ-nodes (flags assigned constants on some
 // paths, e.g. `allowed := false; switch mode { case A: allowed = true }`), keyed by φ.
-type boolState map[*ssa.Phi]bool
+type boolState map[ssa.Value]bool
 
-func (st boolState) key(order []*ssa.Phi) string {
+func (st boolState) key(order []ssa.Value) string {
 	b := make([]byte, len(order))
 	for i, ph := range order {
 		v, ok := st[ph]
@@ -671,6 +671,68 @@ func trackedBoolPhis(fn *ssa.Function) []*ssa.Phi {
 	return out
 }
 
+// trackedBoolValues: the boolean φ-nodes of fn plus the other boolean values that decide more than one branch
+// (`off := len(q) > 0; if off {…}; if off || on {…}`) or decide a branch and also flow into a flag: an SSA value
+// computed once has the same value at every test until its defining instruction runs again.
+func trackedBoolValues(fn *ssa.Function) ([]ssa.Value, map[ssa.Value]bool) {
+	var out []ssa.Value
+	set := map[ssa.Value]bool{}
+	for _, ph := range trackedBoolPhis(fn) {
+		out = append(out, ph)
+		set[ph] = true
+	}
+	uses := map[ssa.Value]int{}
+	var order []ssa.Value
+	note := func(v ssa.Value) {
+		for {
+			if u, ok := v.(*ssa.UnOp); ok && u.Op == token.NOT {
+				v = u.X
+				continue
+			}
+			break
+		}
+		switch v.(type) {
+		case *ssa.Phi, *ssa.Const:
+			return
+		}
+		if bt, isB := v.Type().Underlying().(*types.Basic); !isB || bt.Kind() != types.Bool {
+			return
+		}
+		if uses[v] == 0 {
+			order = append(order, v)
+		}
+		uses[v]++
+	}
+	for _, b := range fn.Blocks {
+		if len(b.Instrs) == 0 {
+			continue
+		}
+		if iff, ok := b.Instrs[len(b.Instrs)-1].(*ssa.If); ok {
+			note(iff.Cond)
+		}
+		for _, in := range b.Instrs {
+			ph, ok := in.(*ssa.Phi)
+			if !ok {
+				break
+			}
+			if set[ph] {
+				for _, e := range ph.Edges {
+					note(e)
+				}
+			}
+		}
+	}
+	n := 0
+	for _, v := range order {
+		if uses[v] >= 2 && n < 8 {
+			out = append(out, v)
+			set[v] = true
+			n++
+		}
+	}
+	return out, set
+}
+
 // dominatingFlagValues: flags whose value is fixed at block b because b is dominated by one
 // side of a branch on the flag (that side's block has the branch block as its only predecessor).
 func dominatingFlagValues(b *ssa.BasicBlock) boolState {
@@ -693,14 +755,16 @@ func dominatingFlagValues(b *ssa.BasicBlock) boolState {
 			}
 			break
 		}
-		ph, ok := c.(*ssa.Phi)
-		if !ok || ph.Block() == id {
+		if ph, ok := c.(*ssa.Phi); ok && ph.Block() == id {
 			continue
 		}
-		if _, dup := out[ph]; dup {
+		if _, isC := c.(*ssa.Const); isC {
 			continue
 		}
-		out[ph] = (id.Succs[0] == d) != neg
+		if _, dup := out[c]; dup {
+			continue
+		}
+		out[c] = (id.Succs[0] == d) != neg
 	}
 	return out
 }
@@ -734,10 +798,15 @@ func (s *PathSearch) search(firstOnly bool) []Reached {
 	}
 	infeas := infeasibleEdges(s.Fn)
 	failIn := failureEntries(s.Fn)
-	tracked := trackedBoolPhis(s.Fn)
+	tracked, isTracked := trackedBoolValues(s.Fn)
 	phisOf := map[*ssa.BasicBlock][]*ssa.Phi{}
-	for _, ph := range tracked {
-		phisOf[ph.Block()] = append(phisOf[ph.Block()], ph)
+	defsOf := map[*ssa.BasicBlock][]ssa.Value{} // tracked non-φ values computed in the block: unknown again on entry
+	for _, tv := range tracked {
+		if ph, ok := tv.(*ssa.Phi); ok {
+			phisOf[ph.Block()] = append(phisOf[ph.Block()], ph)
+		} else if in, ok := tv.(ssa.Instruction); ok {
+			defsOf[in.Block()] = append(defsOf[in.Block()], tv)
+		}
 	}
 	scan := func(b *ssa.BasicBlock, start int) (ssa.Instruction, bool) {
 		for i := start; i < len(b.Instrs); i++ {
@@ -857,7 +926,9 @@ func (s *PathSearch) search(firstOnly bool) []Reached {
 	if s.From != nil {
 		// flags decided by the branches that dominate the start
 		for k, v := range dominatingFlagValues(startBlock) {
-			init[k] = v
+			if isTracked[k] {
+				init[k] = v
+			}
 		}
 	}
 	for k, v := range s.InitState {
@@ -876,7 +947,7 @@ func (s *PathSearch) search(firstOnly bool) []Reached {
 		visited[vkey{startBlock, nil, init.key(tracked)}] = true
 	}
 	// the flag a branch condition tests: (flag, negated)
-	condFlag := func(c ssa.Value) (*ssa.Phi, bool) {
+	condFlag := func(c ssa.Value, at *ssa.BasicBlock) (ssa.Value, bool) {
 		neg := false
 		for {
 			if u, ok := c.(*ssa.UnOp); ok && u.Op == token.NOT {
@@ -885,8 +956,13 @@ func (s *PathSearch) search(firstOnly bool) []Reached {
 			}
 			break
 		}
-		ph, _ := c.(*ssa.Phi)
-		return ph, neg
+		if !isTracked[c] {
+			return nil, neg
+		}
+		if ph, ok := c.(*ssa.Phi); ok && ph.Block() == at {
+			return nil, neg
+		}
+		return c, neg
 	}
 	// value of a branch condition under the flag state: (value, known)
 	condVal := func(c ssa.Value, st boolState) (bool, bool) {
@@ -898,10 +974,8 @@ func (s *PathSearch) search(firstOnly bool) []Reached {
 			}
 			break
 		}
-		if ph, ok := c.(*ssa.Phi); ok {
-			if v, known := st[ph]; known {
-				return v != neg, true
-			}
+		if v, known := st[c]; known {
+			return v != neg, true
 		}
 		return false, false
 	}
@@ -928,19 +1002,22 @@ func (s *PathSearch) search(firstOnly bool) []Reached {
 			st := cur.st
 			// taking a branch on a flag whose value was unknown fixes it from here on
 			if iff, ok := cur.b.Instrs[len(cur.b.Instrs)-1].(*ssa.If); ok && !cknown && len(cur.b.Succs) == 2 {
-				if ph, neg := condFlag(iff.Cond); ph != nil && ph.Block() != cur.b {
+				if fv, neg := condFlag(iff.Cond, cur.b); fv != nil {
 					st = boolState{}
 					for k, v := range cur.st {
 						st[k] = v
 					}
-					st[ph] = (i == 0) != neg
+					st[fv] = (i == 0) != neg
 				}
 			}
-			if phs := phisOf[succ]; len(phs) > 0 {
+			if phs, defs := phisOf[succ], defsOf[succ]; len(phs) > 0 || len(defs) > 0 {
 				base := st
 				st = boolState{}
 				for k, v := range base {
 					st[k] = v
+				}
+				for _, d := range defs {
+					delete(st, d)
 				}
 				for _, ph := range phs {
 					delete(st, ph)
@@ -953,10 +1030,20 @@ func (s *PathSearch) search(firstOnly bool) []Reached {
 							if e.Value != nil {
 								st[ph] = e.Value.String() == "true"
 							}
-						case *ssa.Phi:
-							if v, known := base[e]; known {
-								st[ph] = v
+						default:
+							neg := false
+							ev := ph.Edges[k]
+							for {
+								if u, ok := ev.(*ssa.UnOp); ok && u.Op == token.NOT {
+									ev, neg = u.X, !neg
+									continue
+								}
+								break
 							}
+							if v, known := base[ev]; known && isTracked[ev] {
+								st[ph] = v != neg
+							}
+							_ = e
 						}
 						break
 					}
